@@ -899,7 +899,8 @@ def make_userfile(shape):
         ctx = dict(shape=shape)
         ov = io_overrides(st, ctx)
         it.env["overrides"] = ov
-        cfg, opts = mk_config(prog, st, {"phonetic_suggestion": True})
+        # the constructor runs under every option combination (a context may be created with suggestions off and re-configured later)
+        cfg, opts = mk_config(prog, st, {} if ev == "new" else {"phonetic_suggestion": True})
         ctx["opts"] = opts
         st.ctx = ctx
         cr = Ref([cfg], 0)
@@ -951,6 +952,11 @@ def make_userfile(shape):
         clauses = []
         pm = c["pm"]
         if ev == "new":
+            # what the constructor loads does not depend on the options: a later update_engine only refreshes the auto-correct list, so a
+            # context created under other options must already hold what a context created now would load
+            names = [n for n, g in log]
+            clauses.append(("constructor_consults_the_user_files_whatever_the_options",
+                            "fs_read" in names and any(x in names for x in ("metadata", "file_open", "path_exists"))))
             sel = pm_field(prog, pm, "selections")
             # unreadable content is treated as if the file were absent
             sel_failed = any(n in ("fs_read", "from_slice") and not g for n, g in log[:2])
@@ -1023,6 +1029,45 @@ def userfile_native(vs, ev):
                 out.append((name, sc, x))
                 break
     return out
+
+
+def constructor_options_native():
+    """Native: a context created under one option set (suggestions off, English on, ANSI on ...) with both user files present, then
+    re-configured to suggestions on with the same layout: the learned choice and the user auto-correct entry must act as in a context
+    created with the final configuration."""
+    import obl_assembly
+    keys = obl_assembly.char_keys()
+    store = "phonetic-candidate-selection.json"
+
+    def cfg(o):
+        return {"layout": "avro_phonetic", "database": REPO + "/data", "opts": o}
+    final = {"phonetic_suggestion": True}
+    starts = [("suggestions off", {"phonetic_suggestion": False}), ("suggestions off, ANSI on", {"phonetic_suggestion": False, "ansi": True}),
+              ("English on", {"phonetic_suggestion": True, "english": True}), ("smart quotes off", {"phonetic_suggestion": True, "smart_quote": False}),
+              ("suggestions off, English on", {"phonetic_suggestion": False, "english": True})]
+    scs, names = [], []
+    for name, o in starts:
+        steps = [{"op": "write_user_file", "name": store, "content": json.dumps({"sesh": "শেষ"}, ensure_ascii=False)},
+                 {"op": "write_user_file", "name": "autocorrect.json", "content": "{\"xyz\":\"ami\"}"},
+                 {"op": "new", "ctx": 0, "config": cfg(o)}, {"op": "update", "ctx": 0, "config": cfg(final)}, {"op": "new", "ctx": 1, "config": cfg(final)}]
+        for w in ("sesh", "xyz"):
+            for c in (0, 1):
+                steps += [{"op": "key", "ctx": c, "key": keys[ch], "sel": 0} for ch in w] + [{"op": "get_state", "ctx": c}, {"op": "finish", "ctx": c}]
+        scs.append({"steps": steps})
+        names.append("a context created with %s and re-configured to suggestions on" % name)
+    for name, sc, r in zip(names, scs, run_replay(scs)):
+        rr = r["results"]
+        p = [x for x in rr if "panic" in x]
+        if p:
+            return name, sc, "panic: %s" % p[0]["panic"]
+        states = [i for i, x in enumerate(rr) if x.get("op") == "get_state"]
+        for a, b2, w in ((states[0], states[1], "sesh"), (states[2], states[3], "xyz")):
+            la, lb = rr[a - 1].get("suggestion", {}), rr[b2 - 1].get("suggestion", {})
+            sa, sb = rr[a].get("state", {}).get("prev_selection"), rr[b2].get("state", {}).get("prev_selection")
+            if la.get("list") != lb.get("list") or sa != sb:
+                return name, sc, ("typing %r: it offers %s with candidate %s preselected; a context created with the final configuration offers %s with candidate %s preselected "
+                                  "(user files: a learned choice for 'sesh', an auto-correct entry for 'xyz')" % (w, la.get("list", [])[:3], sa, lb.get("list", [])[:3], sb))
+    return None
 
 
 def save_shrink_native():
@@ -1123,6 +1168,15 @@ def obl_userfiles(check, budget_s=None):
     for v in vio:
         by_ev.setdefault((v["inputs"]["event"], v["clause"]), []).append(v)
     for (ev, clause), vs in sorted(by_ev.items()):
+        if clause == "constructor_consults_the_user_files_whatever_the_options":
+            found = constructor_options_native()
+            if found:
+                fname, sc, obs = found
+                check.stats["traces_validated"] += 1
+                st = check.finding("user files: " + fname, "%s: %s" % (fname, obs), dict(scenario=sc, observed=obs, solver_counterexample=vs[0]["inputs"]))
+                if worst[st] > worst[status]:
+                    status = st
+                continue
         if clause == "save_replaces_the_whole_file":
             found = save_shrink_native()
             if found:
